@@ -33,8 +33,10 @@ PROPS_PART = {
         verus=[dict(unit=u, which='all') for u in QUERY_UNITS],
         kani=[],
         cex={},
-        unverified=['handle_query / handle_non_axfr_query (server units); that the zone passed in contains the QNAME is a precondition here '
-                    '(catalog longest-suffix contract, C22/C07)',
+        unverified=['handle_query / handle_non_axfr_query (server units); `at_or_below(labels(qname), zone apex)` - the zone was found by a catalog '
+                    'lookup for the QNAME - is a PRECONDITION of answer / answer_any that the server units do not discharge yet (needs Catalog::lookup '
+                    'longest-suffix + view_keys_ok + Entry::name + Zone::lemma_apex; see notes/agent_reports/query.md section 7); the server units use a '
+                    'restated assumed frame whose implication from the proved contract is machine-checked (lemma_server_answer_frame)',
                     'owner names and compressed name content of the RRs written: not exposed by the writer contracts for add_*_rrset (C12/C13)',
                     'equality of whole response sections (as multisets) with an independent end-to-end resolver: compositional only',
                     'the reverse direction "Err(ServFail) only for loop / ninth link / malformed data / writer error" is not stated for CNAME chains',
